@@ -284,7 +284,7 @@ def run(tier, seed, replay):
     with open(dpath, "w") as fh:
         for e, t in docs:
             fh.write(("E%d:" % e if e is not None else "") + t.hex() + "\n")
-    outs, crashes = vf.run_shards(b, ["--mode", "docs", "--arg1", dpath, "--seed", seed], 1 if replay else vf.NCPU, rd, timeout=3000)
+    outs, crashes = vf.run_shards(b, ["--mode", "docs", "--arg1", dpath, "--seed", seed], 1 if replay else vf.NCPU, rd, timeout=3000, stall=40, max_restarts=6)
     for cr in crashes:
         case = cr.get("case") or {}
         i = case.get("idx")
